@@ -60,16 +60,30 @@ def foreign_region(ctx, tag):
     return mk_region(ctx, f"inner{tag}", "armed")
 
 
+def may_be_none(T, a):
+    """walkers that own a region return None after recovering from its overrun: TPM2B with a structured body, byte-sized list"""
+    import dataclasses
+
+    if is_list_t(T):
+        return a.get("array_size_constraint") is not None
+    if getattr(T, "__name__", "").startswith("TPM2B") and dataclasses.is_dataclass(T):
+        fs = dataclasses.fields(T)
+        return len(fs) == 2 and not is_list_t(fs[1].type)
+    return False
+
+
 class ProcessContract:
     """contract of process(T, path, ...) as seen by a caller (DESIGN §2.4, §4 U4)
 
     cases: normal return | Exceeded(c) for each live armed region c of the list passed in | (strict only) an error raised
     below: Exceeded of a region opened inside the callee, Anticipated, Subceeded, Value | (warn) fatal Value error"""
 
-    def __init__(self, layout_prims, result_hook=None, raising=True):
+    def __init__(self, layout_prims, result_hook=None, raising=True, fixed_values=None, min_size=None):
         self.P = layout_prims
         self.result_hook = result_hook
         self.raising = raising
+        self.fixed_values = fixed_values or {}  # class -> z3 condition builder on the value term (unit-level case split)
+        self.min_size = min_size or (lambda T: 0)
 
     def __call__(self, I, args, kwargs):
         a = bind(PROCESS_PARAMS, PROCESS_DEFAULTS, args, kwargs, "process")
@@ -115,15 +129,23 @@ class ProcessContract:
                 v = ctx.fresh_int(f"val{tag}", lo, hi)
                 if strict:
                     ctx.assume(allowed_formula(P, v))
+                if T in self.fixed_values:
+                    ctx.assume(self.fixed_values[T](v))
                 value = TypedStub.make(T, S.SInt(v))
                 rec["value_term"] = v
             else:
-                n = ctx.fresh_int(f"n{tag}", 0)
+                n = ctx.fresh_int(f"n{tag}", self.min_size(T))
+                if is_list_t(T) and a.get("count") is not None and a.get("array_size_constraint") is None:
+                    (ET,) = T.__args__
+                    if hasattr(ET, "_int_size") and ET.__name__ in self.P:
+                        # a counted list of fixed-width elements consumes exactly count * width bytes
+                        c = typed_int(a["count"]) if not isinstance(a["count"], int) else z3.IntVal(a["count"])
+                        ctx.assume(n == z3.If(c >= 0, c, 0) * self.P[ET.__name__]["width"])
                 value = self.result_hook(ctx, T, tag, a) if self.result_hook else None
                 if value is None:
                     value = Opaque(T, tag)
-                if not strict and not prim:
-                    # warn mode: a recovered overrun inside may yield None instead of an object
+                if not strict and not prim and may_be_none(T, a):
+                    # warn mode: the owner of a region that was overrun gives up its body and returns None
                     if ctx.fork([z3.BoolVal(True), z3.BoolVal(True)], "callee-none") == 1:
                         value = None
             for c in live:
@@ -146,10 +168,18 @@ class ProcessContract:
                 if d is c:
                     break
                 d.size_already = S.lift_int(S.term(d.size_already) + n0 + s)
+            if is_list_t(T) and a.get("count") is not None and a.get("array_size_constraint") is None:
+                (ET,) = T.__args__
+                if hasattr(ET, "_int_size") and ET.__name__ in self.P:
+                    # counted list of fixed-width elements: the offending field is element j
+                    w = self.P[ET.__name__]["width"]
+                    j = ctx.fresh_int(f"j{tag}", 0)
+                    cnt = typed_int(a["count"]) if not isinstance(a["count"], int) else z3.IntVal(a["count"])
+                    ctx.assume(z3.And(j < cnt, n0 == j * w, s == w))
             cmax = typed_int(c.size_max)
             a0 = S.term(c.size_already) + n0
             ctx.assume(a0 <= cmax)
-            ctx.assume(a0 + s > cmax)
+            ctx.assume_feasible(a0 + s > cmax)
             c.size_already = S.lift_int(a0)
             c.is_obsolete = True
             skipped = cmax - a0
@@ -160,6 +190,12 @@ class ProcessContract:
             exc.violator_path = Opaque("path", tag)
             exc.exceeded_by = S.lift_int(a0 + s - cmax)
             exc.bytes_remaining = None
+            if lst is not None and not (hasattr(T, "_int_size") and not is_list_t(T)):
+                # the callee may have opened regions of its own (nested TPM2Bs) that the unwinding abandons in the list
+                if ctx.fork([z3.BoolVal(True), z3.BoolVal(True)], "abandoned-inner-region") == 1:
+                    stale = foreign_region(ctx, f"stale{tag}")
+                    list.append(lst, stale)
+                    rec["abandoned"] = stale
         else:
             cls = {"inner-exceeded": E.SizeConstraintExceededError, "anticipated": E.AnticipatedSizeConstraintExceededError,
                    "subceeded": E.SizeConstraintSubceededError, "value": E.ValueConstraintViolatedError}[case]
